@@ -374,6 +374,15 @@ class EltoritoEntry:
         else:
             raise pycdlibexception.PyCdlibInvalidInput("Invalid media name '%s'" % (media_name))
 
+        # The entry stores these in 16, 16 and 8 bits; refuse values that
+        # cannot be recorded now instead of failing when the ISO is written.
+        if not 0 <= sector_count <= 0xffff:
+            raise pycdlibexception.PyCdlibInvalidInput('El Torito sector count %d does not fit in 16 bits (specify a boot_load_size for large boot files)' % (sector_count))
+        if not 0 <= load_seg <= 0xffff:
+            raise pycdlibexception.PyCdlibInvalidInput('El Torito load segment must be between 0 and 65535')
+        if not 0 <= system_type <= 0xff:
+            raise pycdlibexception.PyCdlibInvalidInput('El Torito system type must be between 0 and 255')
+
         if bootable:
             self.boot_indicator = 0x88
         else:
